@@ -28,6 +28,7 @@ DEFAULTS = {
     'spi_split': '/',
     'spi_skip': '.',
     'spi_pop': '..',
+    'view_decodes_again': False,
 }
 
 REMAINDERS = {'(?P<%s>.*?)': False, '(?P<%s>(?s:.*?))': True}
@@ -57,13 +58,18 @@ def _str1(v, what):
     return v
 
 
-def masked_shape(node, masked):
-    """Shape hash of a function with the listed string constants blanked (they are value facts)."""
+def masked_shape(node, masked, names=()):
+    """Shape hash of a function with the listed string constants / global names blanked (they are value facts)."""
     node = F.strip_doc(node)
     for n in ast.walk(node):
         if isinstance(n, ast.Constant) and isinstance(n.value, str) and n.value in masked:
             n.value = '<FACT>'
+        if isinstance(n, ast.Name) and n.id in names:
+            n.id = '<FACT>'
     return hashlib.sha1(ast.dump(node).encode()).hexdigest()[:16]
+
+
+SPLITTERS = {'traversal_path_info': True, 'split_path_info': False}   # does it decode (again)?
 
 
 def extract(src, problems):
@@ -151,7 +157,22 @@ def extract(src, problems):
             raise ValueError('index default %r' % (v,))
         vals['default_index'] = v
 
+    def f_view_split():
+        fn = st.find('static_view.get_resource_name')
+        callers = [c.func.id for c in ast.walk(fn) if isinstance(c, ast.Call) and isinstance(c.func, ast.Name)
+                   and len(c.args) == 1 and isinstance(c.args[0], ast.Attribute) and c.args[0].attr == 'path_info'
+                   and isinstance(c.args[0].value, ast.Name) and c.args[0].value.id == 'request']
+        name = _one(callers, 'function applied to request.path_info')
+        imported = [a.name for n in st.tree.body if isinstance(n, ast.ImportFrom) and n.module == 'pyramid.traversal'
+                    for a in n.names if (a.asname or a.name) == name]
+        if imported != [name]:
+            raise ValueError('%s is not imported from pyramid.traversal' % name)
+        vals['view_decodes_again'] = SPLITTERS[name]
+        shapes['pyramid/static.py:static_view.get_resource_name[masked]'] = masked_shape(fn, (), set(SPLITTERS))
+
+    shapes = {}
     if st is not None:
+        attempt('function applied to request.path_info', f_view_split)
         attempt('_invalid_element_chars', f_invalid)
         attempt('_has_insecure_pathelement', f_insecure)
         attempt('_secure_path join', f_secure)
@@ -160,7 +181,6 @@ def extract(src, problems):
         attempt('index default', f_index)
 
     # ---------------- urldispatch.py
-    shapes = {}
 
     def f_route():
         ud = F.Module(src, 'pyramid/urldispatch.py')
